@@ -1,5 +1,6 @@
 import RedisVerif.Driver.Codec
 import RedisVerif.Props.C08
+import RedisVerif.Props.C08Clock
 
 /-
   C08 sub-driver (stateful): one shard's replication state.
@@ -23,6 +24,10 @@ import RedisVerif.Props.C08
                                     given with each key is the routing function
     NFLUSH                          → ok      FLUSHDB / FLUSHALL on every shard
     NSNAP                           → <n> (<key> <rv> ;)*   all shards, sorted by key code
+
+  the u64 boundary of the Lamport time (`Props/C08Clock.lean`):
+    KU <checked01> <start> <n> (T | U <t>)^n → <final time> | overflow
+                                    checked = 1: `overflow-checks` on (panic), 0: wrapping release arithmetic
 -/
 namespace RedisVerif.Driver.C08
 open RedisVerif RedisVerif.Driver RedisVerif.Shard
@@ -114,8 +119,27 @@ def nstep (nd : ShardedNode) (line : String) : ShardedNode × String :=
     | none => (nd, "bad-op")
   | _ => (nd, "bad-op")
 
+def clockOps : P (Bool × Nat × List RedisVerif.C08.ClockOp) := do
+  expect "KU"
+  let ck ← nat
+  let c0 ← nat
+  let n ← nat
+  let ops ← repeatP n (do
+    let t ← tok
+    if t == "T" then pure RedisVerif.C08.ClockOp.tick
+    else if t == "U" then do let x ← nat; pure (RedisVerif.C08.ClockOp.update x)
+    else failure)
+  pure (ck != 0, c0, ops)
+
 def stepAll (d : DState) (line : String) : DState × String :=
   match tokens line with
+  | "KU" :: _ =>
+    match runP clockOps line with
+    | some (ck, c0, ops) =>
+      if ck then
+        (d, match RedisVerif.C08.clockRunChecked c0 ops with | some v => toString v | none => "overflow")
+      else (d, toString (RedisVerif.C08.clockRunWrap c0 ops))
+    | none => (d, "bad-op")
   | t :: _ =>
     if t == "NN" || t == "NS" || t == "NRECOVER" || t == "NSNAP" || t == "NFLUSH" then
       let r := nstep d.nd line
